@@ -214,8 +214,15 @@ class SymReal:
     def __float__(self): return float(self._const())
 
     def __int__(self):
+        if _num(self.t) is None and symbolic_active():
+            return int_cases(self, "trunc")
         n = self._const()
         return int(n)
+
+    def __round__(self, nd=None):
+        if nd not in (None, 0):
+            raise Unsupported("round(x, ndigits) of a symbolic real")
+        return int_cases(self, "round")
 
     def __index__(self):
         n = self._const()
@@ -253,6 +260,41 @@ class SymReal:
     def real(self): return self
     @property
     def imag(self): return SymReal(z3.RealVal(0))
+
+
+INT_CASE_RANGE = 40
+
+
+def int_cases(x, mode):
+    """integer part of a symbolic real by case distinction: the candidates 0, 1, -1, 2, -2, ... are tried
+    in this fixed order (deterministic under re-execution); each candidate k is a path fork on the exact
+    condition `mode(x) == k`, infeasible candidates are pruned by the path solver.
+    modes: trunc (int()), floor, ceil, round (numpy/python: half to even)"""
+    x = wrap(x)
+    n = _num(x.t)
+    if n is not None:
+        import math
+        return {"trunc": int, "floor": math.floor, "ceil": math.ceil, "round": round}[mode](n)
+    t = x.t
+    half = z3.RealVal("1/2")
+    order = [0]
+    for i in range(1, INT_CASE_RANGE + 1):
+        order += [i, -i]
+    for k in order:
+        kv = z3.RealVal(k)
+        if mode == "floor":
+            cond = z3.And(t >= kv, t < kv + 1)
+        elif mode == "ceil":
+            cond = z3.And(t > kv - 1, t <= kv)
+        elif mode == "trunc":
+            cond = z3.And(t > -1, t < 1) if k == 0 else (z3.And(t >= kv, t < kv + 1) if k > 0
+                                                         else z3.And(t > kv - 1, t <= kv))
+        else:
+            inner = z3.And(t > kv - half, t < kv + half)
+            cond = z3.Or(inner, t == kv - half, t == kv + half) if k % 2 == 0 else inner
+        if bool(SymBool(cond)):
+            return k
+    raise Unsupported("integer part of a symbolic real outside [-%d, %d]" % (INT_CASE_RANGE, INT_CASE_RANGE))
 
 
 class SymBool:
@@ -1185,6 +1227,14 @@ class _LinalgShim:
         return _np.linalg.norm(x, ord, axis, keepdims)
 
 
+def _mk_intpart(realfn, mode):
+    def f(x, *a, **kw):
+        if symbolic_active() and is_sym(x) and not kw and (not a or a == (0,)):
+            return _elementwise(lambda v: SymReal(_ratval(int_cases(v, mode))) if isinstance(v, SymReal) else realfn(v), x)
+        return realfn(x, *a, **kw)
+    return f
+
+
 def _forked_bools(arr):
     a = _np.asarray(arr, dtype=object)
     if a.ndim == 0:
@@ -1267,6 +1317,9 @@ def _sh_square(x, *a, **kw):
 _NP_OVERRIDES = {
     "array": _mk_array_like(_np.array),
     "linspace": _sh_linspace,
+    "around": _mk_intpart(_np.around, "round"), "round": _mk_intpart(_np.round, "round"),
+    "rint": _mk_intpart(_np.rint, "round"), "floor": _mk_intpart(_np.floor, "floor"),
+    "ceil": _mk_intpart(_np.ceil, "ceil"), "trunc": _mk_intpart(_np.trunc, "trunc"),
     "min": _mk_minmax(_np.min, False), "amin": _mk_minmax(_np.min, False),
     "max": _mk_minmax(_np.max, True), "amax": _mk_minmax(_np.max, True),
     "linalg": _LinalgShim(),
